@@ -13,10 +13,15 @@
      result uniquely;
    - the whole-match template is the identity, nested or not;
    - the count is the number of outermost matches; a tree without matches is returned unchanged with count 0.
-   NOT PROVED: the matcher (C17), slice and multi-node captures, the slot discovery per node type, text preservation,
-   loop / count limits / callbacks. Decided by the pure-AST reference oracle of py/props/C18.py (partial). *)
+   - (models/SubLoop.v, the driver loop over the match locations with count / loop / callback, tied to the counts FST.subn
+     reports by correspondence) the reported pair is (locations substituted, substitutions performed) for every setting;
+     every location takes at most what it can match and at most the loop allowance, the same allowance at every
+     location; a count limit is respected; locations <= substitutions.
+   NOT PROVED: the matcher (C17), slice and multi-node captures, the slot discovery per node type, text preservation.
+   Decided by the pure-AST reference oracle of py/props/C18.py (partial). *)
 From Coq Require Import List Bool Arith.
-From PF Require Import models.Subst proofs.SubstProofs.
+From PF Require Import models.Subst proofs.SubstProofs models.SubLoop proofs.SubLoopProofs.
+From Coq Require Import ZArith.
 Import ListNotations.
 
 Theorem C18_sub_replaces_exactly_the_outermost_matches : forall p tm t,
@@ -35,6 +40,29 @@ Print Assumptions C18_count_is_number_of_outermost_matches.
 Theorem C18_no_match_no_change : forall p tm t, nomatch p t = true -> sub p tm t = t /\ cnt p t = 0.
 Proof. exact sub_nomatch_unchanged. Qed.
 Print Assumptions C18_no_match_no_change.
+
+(* ---- count / loop / callback: the driver loop of subn() (models/SubLoop.v == the counts FST.subn reports, by correspondence) ---- *)
+Theorem C18_reported_counts_are_the_substitutions_performed : forall l0 count0, (0 <= count0)%Z -> forall locs cbs,
+  let s := locs_run locs l0 (init count0 cbs) in
+  subn_counts locs l0 count0 cbs = (Z.of_nat (nonzero (per_loc s)), sum (per_loc s)).
+Proof. exact counts_are_substitutions. Qed.
+Print Assumptions C18_reported_counts_are_the_substitutions_performed.
+
+Theorem C18_every_location_within_its_matches_and_the_same_loop_allowance : forall locs l0 count0 cbs,
+  let s := locs_run locs l0 (init count0 cbs) in
+  length (per_loc s) <= length locs /\
+  Forall2 (fun d avail => d <= avail /\ allowance l0 d) (per_loc s) (firstn (length (per_loc s)) locs).
+Proof. exact per_location_bounds. Qed.
+Print Assumptions C18_every_location_within_its_matches_and_the_same_loop_allowance.
+
+Theorem C18_count_limit_respected : forall locs l0 count0 cbs, (0 < count0)%Z -> (fst (subn_counts locs l0 count0 cbs) <= count0)%Z.
+Proof. exact count_limit_respected. Qed.
+Print Assumptions C18_count_limit_respected.
+
+Theorem C18_locations_le_substitutions : forall locs l0 count0 cbs, (0 <= count0)%Z ->
+  (fst (subn_counts locs l0 count0 cbs) <= Z.of_nat (snd (subn_counts locs l0 count0 cbs)))%Z.
+Proof. exact unique_le_total. Qed.
+Print Assumptions C18_locations_le_substitutions.
 
 (* non-vacuity: swap the operands of every outermost node labelled 1:  1(1(a,b), c) -> 1(c, 1(a,b)) non-nested,
    1(c, 1(b,a)) nested *)
